@@ -467,6 +467,7 @@ def run(ctx: Ctx):
         _strided_windows(ctx, rel)
     _sos_renamed_in_every_order(ctx, rel)
     _history_window_table(ctx, rel)
+    _table_is_copied_before_it_is_completed(ctx, rel)
     _sos_compared_before_the_narrow_cast(ctx, rel)
     _arpa_table(ctx)
 
@@ -686,6 +687,49 @@ def _history_window_table(ctx: Ctx, rel: str):
            (f"order {bad[0]}, {bad[1]} index {bad[2]} into a history of {T} steps {hist.T.tolist()} (one row per sequence): the kernel reads the context "
             f"{[[str(v_) for v_ in r_] for r_ in bad[3]] if isinstance(bad[3], list) else bad[3]} (one row per step); the {bad[0] - 1} token(s) before the index, "
             f"start-symbol padded, are {bad[4]}") if bad else "", rel, kern.line, sample=dict(rows=rows))
+
+
+def _table_is_copied_before_it_is_completed(ctx: Ctx, rel: str):
+    """S13: building the trie COMPLETES the n-gram table in place (missing unigrams and suffixes are added, an out-of-vocabulary start
+    symbol is re-keyed to the vocabulary size). Unless the caller passed `destructive`, that happens on a copy: the statement that copies
+    the dictionaries under `not destructive` precedes every statement that writes into them. Copied later, the model is still right but
+    the CALLER's table has been rewritten - evaluated on the table they hold, the back-off recursion no longer agrees with the model, and a
+    second model cannot be built from it."""
+    col, pkg = ctx.col, ctx.pkg
+    f = pkg.func(f"{MOD}::LookupLanguageModel._build_trie")
+    where = f"{rel}::{f.qualname}"
+    tab = f.params[1].name
+    flag = next((p_.name for p_ in f.params[2:] if "destruct" in p_.name), None)
+    rd = ReachingDefs(f.node)
+    body = list(f.node.body)
+
+    def from_table(e):
+        return any(isinstance(x, ast.Name) and x.id == tab for x in ast.walk(e)) or tab in rd.derives(e).params() or any(
+            getattr(d_, "name", None) == tab for d_ in rd.derives(e).defs)
+
+    def mutates(st):
+        for x in ast.walk(st):
+            if isinstance(x, ast.Call) and isinstance(x.func, ast.Attribute) and x.func.attr in ("update", "pop", "popitem", "clear", "setdefault") \
+                    and from_table(x.func.value):
+                return x
+            if isinstance(x, ast.Subscript) and isinstance(x.ctx, (ast.Store, ast.Del)) and from_table(x.value):
+                return x
+        return None
+    copy_at = None
+    for i_, st in enumerate(body):
+        if isinstance(st, ast.If) and flag is not None and flag in {x.id for x in ast.walk(st.test) if isinstance(x, ast.Name)}:
+            for x in ast.walk(st):
+                if isinstance(x, ast.Assign) and any(isinstance(t_, ast.Name) and t_.id == tab for t_ in x.targets) and any(
+                        isinstance(c_, ast.Call) and (call_name(c_).split(".")[-1] in ("copy", "deepcopy", "dict")) for c_ in ast.walk(x.value)):
+                    copy_at = i_ if copy_at is None else copy_at
+    first_mut = next(((i_, mutates(st)) for i_, st in enumerate(body) if mutates(st) is not None), None)
+    col.floor("table_completion_sites", 0 if first_mut is None else 1, 1)
+    ok = copy_at is not None and first_mut is not None and copy_at < first_mut[0]
+    col.ob("G10", "S13", f"{where}::caller's-table-copied-before-it-is-completed", ok,
+           (f"`{u(first_mut[1])[:70]}` (line {first_mut[1].lineno}) writes into the dictionaries of `{tab}` "
+            + ("and nothing copies them under `not " + str(flag) + "`" if copy_at is None else f"before they are copied at line {body[copy_at].lineno}")
+            + ": without `destructive` the caller's own table is completed and re-keyed in place") if (first_mut is not None and not ok) else "",
+           rel, first_mut[1].lineno if first_mut else f.line)
 
 
 def _arpa_table(ctx: Ctx):
